@@ -318,6 +318,16 @@ def build(i, r, scratch):
         if names:
             argv[4] = "VALUE" if evalmode else "ConfigClass.%s" % names[0]
             argv[8] = "func.%s" % names[-1]
+        if not evalmode and r.random() < 0.35:
+            # a top-level name the static lookup cannot resolve (bound under try / if / with, by unpacking, by import):
+            # the command may refuse, it must not fall back to running the module
+            extra = ("\ntry:\n    GUARDED = __import__('os').getcwd()\nexcept Exception:\n    GUARDED = None\n"
+                     "A_T, B_T = ('a', 'b')\nif True:\n    COND = [1, 2]\nfrom os import sep as IMPORTED\n"
+                     "open(%r, 'w').close()\n" % os.path.join(scratch, "SENTINEL_module_level_ran"))
+            src2 = src + extra
+            ast.parse(src2)
+            pi = write(scratch, "sp_in_%d.py" % i, src2)
+            argv[2], argv[4] = pi, r.choice(("GUARDED", "A_T", "B_T", "COND", "IMPORTED", "MISSING_NAME"))
         return {"kind": kind, "shown": src, "allowed_writes": [po], "expect_fire": evalmode,
                 "call": lambda: cdd.__main__.main(argv)}
     raise ValueError(kind)
